@@ -329,4 +329,5 @@ func TestC07(t *testing.T) {
 	core.Rapid(r, core.Check[poolCase]{Name: "composite-pools", Gen: genPool(false), Exec: execPool("C07")}, r.N(1500, 15000))
 	core.Rapid(r, core.Check[poolCase]{Name: "tight-maximum", Gen: genPool(false), Exec: execTightMaximum}, r.N(600, 6000))
 	core.Rapid(r, core.Check[typedPoolCase]{Name: "typed-composites", Gen: genTypedPool, Exec: execTypedPool("C07")}, r.N(800, 8000))
+	core.Rapid(r, core.Check[rankPastCase]{Name: "ranked-then-changed", Gen: genRankPast, Exec: execRankPast("C07")}, r.N(3000, 30000))
 }
